@@ -173,6 +173,37 @@ ASSUME ndJsonSerialize("parallel_quick.ndjson", SetToSeq(ParallelQuick))
 ASSUME ndJsonSerialize("parallel_all.ndjson", SetToSeq(ParallelAll))
 ASSUME PrintT(<<"PARALLEL", Cardinality(ParallelQuick), Cardinality(ParallelAll)>>)
 
+(***************************************************************************)
+(* Two instances of one workload in two driver contexts (two PIDs) on one  *)
+(* GPU, same sizes: identical allocation histories, so both address spaces *)
+(* use the same virtual addresses (sysrun program `twins`, model            *)
+(* AddrSpace.tla).  The size is derived from the CU count of the platform  *)
+(* so that the dispatches of both instances wrap around the compute units  *)
+(* (work-groups per instance = CUs + 1; matrixtranspose: the smallest      *)
+(* square grid with at least as many work-groups as CUs): a CU that ran a  *)
+(* work-group of instance A then runs one of instance B.  Sequentially and  *)
+(* concurrently (two application goroutines), emulation (64 CUs) and the   *)
+(* small timing platforms (2 CUs).                                         *)
+(***************************************************************************)
+TwinNames == <<"which", "size", "conc">>
+TwinWhich == [fir |-> 1, relu |-> 2, matrixtranspose |-> 3, vectoradd |-> 4]
+TwinSize(w, cu) ==
+  CASE w = "fir" -> 256 * (cu + 1)
+    [] w = "relu" -> 64 * (cu + 1) - 1
+    [] w = "vectoradd" -> 64 * (cu + 1)
+    [] w = "matrixtranspose" -> 64 * (CHOOSE k \in 1..16 : k * k >= cu /\ \A j \in 1..16 : j * j >= cu => k <= j)
+TwinPlatforms == {pl \in BPlatforms : pl.mode = "emu" \/ pl.cus > 0}
+TCase(w, a, pl, conc) ==
+  [w |-> "twins", names |-> TwinNames, p |-> <<TwinWhich[w], TwinSize(w, BCU(pl)), conc>>,
+   c |-> [mode |-> pl.mode, gpu |-> pl.gpu, arch |-> a, n |-> 1, dist |-> "plain", umem |-> 0],
+   knobs |-> IF pl.cus > 0 THEN "cus=1,sas=2" ELSE "", twins |-> w, host_concurrent |-> (conc = 1), cu |-> BCU(pl)]
+TwinsAll == UNION {{TCase(w, a, pl, conc) : a \in BArchs(w, pl), conc \in {0, 1}}
+                   : w \in {"fir", "relu", "matrixtranspose", "vectoradd"}, pl \in TwinPlatforms}
+ASSUME \A k \in TwinsAll : k.p[2] >= 64
+ASSUME \E k \in TwinsAll : k.twins = "fir" /\ k.c.mode = "emu" /\ k.p[2] = 256 * 65
+ASSUME ndJsonSerialize("twins_all.ndjson", SetToSeq(TwinsAll))
+ASSUME PrintT(<<"TWINS", Cardinality(TwinsAll)>>)
+
 Init == x = 0
 Next == UNCHANGED x
 =============================================================================
